@@ -4,6 +4,7 @@ import common
 from common import codes, uncodes
 import tokutil
 import c03_sessions as S
+import c03_guard as G
 
 PID = 'C03'
 GENS = ['tok', 'c03']
@@ -84,6 +85,24 @@ class _TooManyCalls(BaseException):
     pass
 
 
+# Budgets. Tokens: the proved bound (C03_steps: <= 2n+1 _next_char calls, every token but EOF consumes a character)
+# gives at most n+1 tokens before EOF; n+2 calls are allowed. Wall clock: a watchdog around every entry into the
+# implementation, for loops that make no calls at all.
+OBSERVE_LIMIT_S = 2.0
+KV_LIMIT_S = 1.0
+MAX_HANGS = 3          # stop exploring a generator / stop running in a process after this many watchdog hits (each costs the limit)
+_HANGS = {'n': 0}
+
+
+def _impl_run_guarded(Tokenizer, TSE, s, opts, n):
+    """tokutil.impl_run on the plain class, under the watchdog."""
+    try:
+        with G.limit(OBSERVE_LIMIT_S):
+            return tokutil.impl_run(Tokenizer, TSE, s, opts, max_calls=n + 2)
+    except G.Watchdog:
+        return {'toks': [], 'err': None, 'exc': f'no result within {OBSERVE_LIMIT_S} s'}
+
+
 _CLS = {}
 
 
@@ -113,6 +132,11 @@ def observe(data, opts, n):
     problems = []
     toks = []
     res = {'toks': toks, 'err': None}
+    tok = None
+    if _HANGS['n'] >= MAX_HANGS:      # this process already lost MAX_HANGS x the limit: the witnesses exist, do not wait again
+        res['exc'] = 'skipped: the watchdog already fired %d times in this process' % _HANGS['n']
+        return res, 0, problems
+    G.arm(OBSERVE_LIMIT_S)
     try:
         tok = CountTok(data, None, **kw)
         tok.limit = 4 * n + 64
@@ -123,7 +147,7 @@ def observe(data, opts, n):
                 break
         else:
             res['exc'] = f'no EOF or error after {n + 2} tokens'
-            problems.append(('nontermination', res['exc']))
+            problems.append(('non-termination', res['exc']))
             return res, tok.calls, problems
         calls = tok.calls
         # EOF forever, nothing moves
@@ -141,12 +165,19 @@ def observe(data, opts, n):
             problems.append(('wrong-exception', res['exc']))
     except _TooManyCalls:
         res['exc'] = f'more than {4 * n + 64} _next_char calls'
-        problems.append(('nontermination', res['exc']))
+        problems.append(('non-termination', res['exc']))
         return res, 4 * n + 64, problems
+    except G.Watchdog:
+        _HANGS['n'] += 1
+        res['exc'] = f'no result within {OBSERVE_LIMIT_S} s (after {len(toks)} tokens)'
+        problems.append(('non-termination', res['exc']))
+        return res, getattr(tok, 'calls', 0), problems
     except Exception as e:
         res['exc'] = f'{type(e).__name__}: {e}'
         problems.append(('wrong-exception', f'raised {res["exc"]}'))
         return res, 0, problems
+    finally:
+        G.disarm()
     if calls > 2 * n + 1:
         problems.append(('too-many-calls', f'{calls} _next_char calls for {n} characters (bound 2n+1, theorem C03_steps)'))
     return res, calls, problems
@@ -200,7 +231,7 @@ def _exh_worker(strings):
                     ref = r
                     # cross-check with the plain class through tokutil.impl_run (not when the guarded run showed
                     # that the loop does not end: the plain class has no guard)
-                    r0 = r if any(k == 'nontermination' for k, _w in pr) else tokutil.impl_run(Tokenizer, TSE, s, opts, max_calls=n + 2)
+                    r0 = r if any(k == 'non-termination' for k, _w in pr) else _impl_run_guarded(Tokenizer, TSE, s, opts, n)
                     if r0 != r:
                         probs.append(('wrong-exception' if r0.get('exc') else 'chunk-dependence',
                                       f'plain Tokenizer gives {r0}, counting subclass {r}', oi, name))
@@ -215,6 +246,18 @@ def _exh_worker(strings):
 
 
 # --------------------------------------------------------------------------- random documents
+
+# every special character as the LAST character of the text, at top level and inside each construct
+ENDINGS = ['\r', '\\', '/', '*', '"', '[', '(', '#', '\r\n', '\n\r', '//', '/*', '*/', "'", ' \r', '\t\r']
+CONTEXTS = ['', 'a', 'a ', '"x', '"x" ', '"key" "value"', '// c', '/* c', '/* c */', '[f', '[f]', '(p', '(p)', '#d', '{\n', 'a\n',
+            '"x\\', 'a\r', '\ufeff']
+ENDING_OPTS = [[b, p, True, s, s, False, False] for b in (False, True) for p in (False, True) for s in (False, True)] + \
+              [[False, True, False, False, False, True, True], [True, True, True, True, False, False, False]]
+
+
+def ending_cases():
+    return [c + e for c in CONTEXTS for e in ENDINGS]
+
 
 WORDS = ['a', 'key', 'Value', 'x1', 'model', 'ent', 'ß', 'İ', 'É', 'targetname', '0', '-1.5', 'a/b', 'a*b', 'c:d', 'e+f']
 ESC = ['\\n', '\\t', '\\"', '\\\\', '\\/', '\\?', '\\x', '\\\n', '\\\r\n', '\\\r', "\\'"]
@@ -343,7 +386,7 @@ def _doc_worker(jobs):
                     probs.append((key, what, name))
                 if ref is None:
                     ref = r
-                    r0 = r if any(k == 'nontermination' for k, _w in pr) else tokutil.impl_run(Tokenizer, TSE, s, opts, max_calls=n + 2)
+                    r0 = r if any(k == 'non-termination' for k, _w in pr) else _impl_run_guarded(Tokenizer, TSE, s, opts, n)
                     if r0 != r:
                         probs.append(('chunk-dependence', f'plain Tokenizer gives {r0}, counting subclass {r}', name))
                 elif tokutil.strip_exc(r) != tokutil.strip_exc(ref):
@@ -510,6 +553,10 @@ def correspond(ctx, drivers):
     rng = ctx.rng
     ndocs = ctx.budget(900, 12000)
     jobs, meta = [], []
+    for s in ending_cases():
+        dd = doc_deliveries(rng, s)
+        jobs.append((s, ENDING_OPTS, [d for d in dd if d[0] in ('str', 'list:adversarial', 'list:chars', 'list:empties', 'stringio-universal')]))
+        ctx.count('doc ending in a special character')
     for _ in range(ndocs):
         noisy, star = rng.random() < 0.3, rng.random() < 0.5
         s = gen_doc(rng, noisy, star)
@@ -583,7 +630,7 @@ def run_sessions(ctx, drv):
     EPOCH = 40
     classes, epoch_calls = None, []
     reqs, meta = [], []
-    nfound = 0
+    nfound = nhang = 0
     for si in range(n):
         if si % EPOCH == 0:
             classes, epoch_calls = S.fresh_classes(), []
@@ -599,6 +646,17 @@ def run_sessions(ctx, drv):
             if rq is not None and drv is not None:
                 reqs.append(rq)
                 meta.append((calls, c, r))
+        # totality: a fresh tokenizer run to the end must get there within n+3 tokens / the watchdog
+        for c, r in zip(calls, res):
+            if S.hangs(r) and c['mode'] == 'full':
+                text = ''.join(uncodes(x) for x in c['chunks'])
+                nhang += 1
+                if nhang <= 3:
+                    _witness_from(ctx, text, 'non-termination', f'(in a session) {r.get("exc")}', c['opts'],
+                                  'str' if c['str'] else c.get('delivery', 'list'))
+        if nhang >= MAX_HANGS * 4:
+            ctx.notes.append(f'sessions stopped after {nhang} runs that do not end ({si + 1} of {n} sessions)')
+            break
         # the property itself: the last call gives what it gives on a pristine import
         if res[-1] != S.pristine(calls[-1]):
             nfound += 1
@@ -685,7 +743,7 @@ def gen_kv(rng, depth=0):
     return lines
 
 
-def _kv_parse_check(ctx, text, chunks=None, kw=None):
+def _kv_parse_check(ctx, text, chunks=None, kw=None, limit_s=KV_LIMIT_S):
     """Keyvalues.parse on garbage: returns normally or raises KeyValError, nothing else, the same for chunked input."""
     import traceback
     from srctools.keyvalues import Keyvalues, KeyValError
@@ -693,8 +751,11 @@ def _kv_parse_check(ctx, text, chunks=None, kw=None):
 
     def one(data):
         try:
-            kv = Keyvalues.parse(data, **kw)
-            return ('ok', kv.serialise() if hasattr(kv, 'serialise') else repr(kv), None, None)
+            with G.limit(limit_s):
+                kv = Keyvalues.parse(data, **kw)
+                return ('ok', kv.serialise() if hasattr(kv, 'serialise') else repr(kv), None, None)
+        except G.Watchdog:
+            return ('HANG', f'no result within {limit_s} s', None, None)
         except KeyValError as e:
             return ('KeyValError', e.mess, e.line_num, None)
         except Exception as e:
@@ -703,6 +764,10 @@ def _kv_parse_check(ctx, text, chunks=None, kw=None):
             return ('OTHER', f'{type(e).__name__}: {e}', None, mine[-1] if mine else ((tb[-1].line or '') if tb else ''))
     r = one(text)
     inp = {'kv': codes(text), 'kw': kw}
+    if r[0] == 'HANG':
+        ctx.witness('non-termination', f'Keyvalues.parse({text!r}{", " + repr(kw) if kw else ""}) does not return: {r[1]} '
+                    f'(a text of {len(text)} characters)', inp)
+        return False
     if r[0] == 'OTHER':
         key = 'kv-wrong-exception'
         if kw.get('single_block') and r[1].startswith('IndexError') and 'root[0]' in (r[3] or ''):
@@ -756,7 +821,11 @@ def search(ctx):
     # (c) Keyvalues.parse: garbage and near-valid documents raise KeyValError only, and parse the same when chunked
     nkv = ctx.budget(6000, 60000)
     seen_kv = set()
+    kv_hangs = 0
     for i in range(nkv):
+        if kv_hangs >= MAX_HANGS:
+            ctx.notes.append(f'Keyvalues.parse search stopped after {kv_hangs} inputs on which it does not return ({i} of {nkv} inputs tried)')
+            break
         kw = {}
         if i % 4 == 0:
             t = ''.join(rng.choice(GARBAGE) for _ in range(rng.randrange(0, 30)))
@@ -767,6 +836,8 @@ def search(ctx):
             if rng.random() < 0.3 and t:
                 j = rng.randrange(len(t))
                 t = t[:j] + rng.choice(GARBAGE) + t[j + (rng.random() < 0.5):]
+        if rng.random() < 0.15:           # texts ENDING in each special character
+            t = t.rstrip('\n') + rng.choice(ENDINGS)
         if i % 2:
             kw = {k: rng.random() < 0.5 for k in KV_OPTS if rng.random() < 0.4}
         chunks = cut(t, adversarial_cuts(t) | {rng.randrange(1, max(2, len(t))) for _ in range(3)})
@@ -775,20 +846,23 @@ def search(ctx):
         ctx.count('Keyvalues.parse ' + ('default options' if not kw else 'random parse options'))
         if not ok:
             w = ctx.witnesses[n0] if len(ctx.witnesses) > n0 else None
+            hang = w is not None and w['key'] == 'non-termination'
+            kv_hangs += hang
             if w is not None and w['key'] not in seen_kv:
                 seen_kv.add(w['key'])
-                # shrink by lines, then by characters
+                # shrink by lines, then by characters (a hanging probe costs its whole time limit: small limit, small budget)
                 def fails(parts, key=w['key'], kw=kw, sep=''):
                     p = _Probe()
-                    _kv_parse_check(p, sep.join(parts), None, kw)
+                    _kv_parse_check(p, sep.join(parts), None, kw, limit_s=0.25 if hang else KV_LIMIT_S)
                     return any(x['key'] == key for x in p.witnesses)
+                budget = 40 if hang else 400
                 if w['key'] != 'kv-chunk-dependence':
                     ls = t.split('\n')
                     if len(ls) > 1 and fails(ls, sep='\n'):
-                        ls = common.ddmin(ls, lambda q: fails(q, sep='\n'))
+                        ls = common.ddmin(ls, lambda q: fails(q, sep='\n'), budget=budget)
                     small = '\n'.join(ls)
                     if len(small) > 1 and fails(list(small)):
-                        small = ''.join(common.ddmin(list(small), fails))
+                        small = ''.join(common.ddmin(list(small), fails, budget=budget))
                     if fails(list(small)):
                         w['input']['shrunk'] = codes(small)
                         w['what'] += f' (shrunk to {small!r})'
@@ -797,7 +871,7 @@ def search(ctx):
     # (d) shrink the first tokenizer witness
     for w in ctx.witnesses:
         inp = w['input']
-        if 's' not in inp or w['key'] not in ('chunk-dependence', 'wrong-exception', 'nontermination', 'eof-unstable', 'too-many-calls'):
+        if 's' not in inp or w['key'] not in ('chunk-dependence', 'wrong-exception', 'non-termination', 'eof-unstable', 'too-many-calls'):
             continue
         s = uncodes(inp['s'])
         opts = inp['opts']
